@@ -625,7 +625,8 @@ func runRnsHistory(rc *RunCtx) {
 	if rc.Chance(0.4) {
 		pool = append(pool, fresh())
 	}
-	c, err := chain.New(chain.Config{Seed: rc.Seed, NAcc: nacc, Fund: rnsFund(), RnsNames: seeded})
+	// one more account (index nacc) that is drained at the start: a registrant and bidder that cannot pay
+	c, err := chain.New(chain.Config{Seed: rc.Seed, NAcc: nacc + 1, Fund: rnsFund(), RnsNames: seeded})
 	if err != nil {
 		rc.Abort("init: " + err.Error())
 		return
@@ -645,6 +646,22 @@ func runRnsHistory(rc *RunCtx) {
 	if err != nil {
 		rc.Abort("observe: " + err.Error())
 		return
+	}
+	pauper := nacc
+	{
+		keep := rc.Pick([]int64{0, 1, 999, 2_000_000})
+		for _, cn := range c.App.BankKeeper.GetAllBalances(c.Ctx(), c.Accs[pauper].Addr) {
+			amt := cn.Amount
+			if cn.Denom == rnsDenomA {
+				amt = amt.SubRaw(keep)
+			}
+			if amt.IsPositive() {
+				c.DeliverAs(pauper, bankSend(c.Accs[pauper].Addr, c.Accs[0].Addr, sdk.NewCoins(sdk.NewCoin(cn.Denom, amt))))
+			}
+		}
+		if st, err := w.observe(); err == nil {
+			w.st = st
+		}
 	}
 	g := &rnsGen{rc: rc, w: w, c: c, pool: pool, short: short}
 	rc.Logf("names: %s (a%d, expires %d), %s (a%d, expires %d), %s (seeded long-lived: %v); pool %v", n1, o1, e1, n2, o2, e2, n3, longLived, pool)
@@ -692,6 +709,19 @@ func runRnsHistory(rc *RunCtx) {
 			if !f() {
 				return
 			}
+			continue
+		}
+		if rc.Chance(0.06) {
+			// the account that cannot pay tries to register (the module account may well hold other people's bids)
+			n := g.pickName()
+			if rc.Chance(0.5) {
+				n = fresh()
+				g.pool = append(g.pool, n)
+			}
+			if !g.do(pauper, &rnstypes.MsgRegisterName{Creator: g.acc(pauper), Name: n, Years: 1, Data: "{}"}) {
+				return
+			}
+			rc.Count("registrations_by_an_account_that_cannot_pay", 1)
 			continue
 		}
 		if !g.randomStep() {
